@@ -4,6 +4,9 @@ builder, reference graph algorithms"""
 import contextlib
 import io
 import signal
+import warnings
+
+warnings.filterwarnings('ignore', category=RuntimeWarning)      # coroutines never awaited
 
 from asynciojobs import AbstractJob, Scheduler, PureScheduler, Sequence
 
